@@ -1,5 +1,5 @@
 """C04 helpers: case generation, harness/model drivers, comparison, property oracle."""
-import math, os
+import math, os, re
 import vlib
 from vlib import hexf, close
 
@@ -97,6 +97,9 @@ def gen_dir(r):
     c = r.random()
     if c < 0.10:
         return r.choice([[0.0, 0.0, 1.0], [0.0, 0.0, -1.0]])
+    if c < 0.115:
+        # what make_unit_vector returns for some exactly z-aligned inputs: |z| = 1 - 2^-53
+        return r.choice([[0.0, 0.0, 1 - EPS], [0.0, 0.0, -(1 - EPS)]])
     if c < 0.16:
         return r.choice([[1.0, 0.0, 0.0], [0.0, 1.0, 0.0], [-1.0, 0.0, 0.0], [0.0, -1.0, 0.0]])
     if c < 0.40:
@@ -460,7 +463,12 @@ def agree(c, a, b):
     if not close(a["dep"], b["dep"], 1e-9, eatol):
         return False
     if a["action"] == 0:
-        if not close(a["E"], b["E"], 1e-9, eatol) or not close(a["dir"], b["dir"], 1e-9, 1e-9):
+        if not close(a["E"], b["E"], 1e-9, eatol):
+            return False
+        # the direction of a particle left with (numerically) zero energy is the
+        # normalised difference of two equal momenta: ill-conditioned, not compared
+        stopped = c.model in ("mb", "muhad_bb", "muhad_mubb", "muhad_bragg") and abs(a["E"]) <= 1e-9 * c.E
+        if not stopped and not close(a["dir"], b["dir"], 1e-9, 1e-9):
             return False
     for sa, sb in zip(a["secs"], b["secs"]):
         if sa[0] != sb[0] or not close(sa[1], sb[1], 1e-9, eatol) or not close(sa[2], sb[2], 1e-9, 1e-9):
@@ -522,34 +530,34 @@ def threshold(c, pid):
 
 
 def nan_signature(c, a):
-    """Known-finding signatures for NaN directions, kept narrow: only when the sampled
-    kinematic variable is within 1e-10 (relative) of its limit, so that the argument
-    of the square root is within a few ulp of its bound, AND an extreme uniform was
-    consumed (or the cut itself is within 1e-9 of the kinematic maximum)."""
+    """Known-finding signatures for NaN directions, kept narrow: only when the exact
+    (rational arithmetic on the doubles) argument of the square root is within a
+    few ulp of its bound, i.e. the sampled kinematic variable sits at its limit, AND
+    an extreme uniform was consumed (or the cut itself is within 1e-8 of Tmax)."""
+    from fractions import Fraction as F
     m, act = c.model, a["action"]
     used = c.u[:a["draws"]]
     extreme = any(x <= 2.0 ** -29 or x >= 1 - 2.0 ** -19 for x in used)
-
-    def near(x, y):
-        return abs(x - y) <= 1e-10 * max(abs(x), abs(y))
     try:
         if m == "kn" and act == 0 and not all(math.isfinite(x) for x in a["dir"]):
-            eps0 = 1 / (1 + 2 * c.E / EMASS)
-            if extreme and near(a["E"] / c.E, eps0):
+            eps = F(a["E"]) / F(c.E)
+            k = F(c.E) * F(1 / EMASS)
+            cos = 1 - (1 - eps) / (eps * k)
+            if extreme and abs(float(1 + cos)) <= 1e-9:
                 return "kn-one-minus-costheta-exceeds-2-by-rounding-nan-direction"
         if m == "eplusgg" and c.E > 0 and not all(math.isfinite(x) for x in a["secs"][0][2]):
-            tau = c.E / EMASS
-            sq = 0.5 * math.sqrt(tau / (tau + 2))
-            eps = a["secs"][0][1] / (c.E + 2 * EMASS)
-            if extreme and (near(eps, 0.5 - sq) or near(eps, 0.5 + sq)):
+            etot = F(c.E) + 2 * F(EMASS)
+            eps = F(a["secs"][0][1]) / etot
+            cos2 = (eps * etot - F(EMASS)) ** 2 / (eps * eps * F(c.E) * etot)
+            if extreme and abs(float(1 - cos2)) <= 1e-11:
                 return "eplusgg-cost-outside-unit-interval-by-rounding-nan-direction"
         if m in ("mb", "muhad_bb", "muhad_mubb", "muhad_bragg") and act == 0:
-            te = a["secs"][0][1]
-            if m == "mb":
-                tmax = c.E if c.variant == 1 else c.E / 2
-            else:
-                tmax = mu_tmax(c.E)
-            if near(te, tmax) and (extreme or abs(c.cut - tmax) <= 1e-9 * tmax):
+            te = F(a["secs"][0][1])
+            M = F(MASS[INC_PID[m](c)])
+            me, E = F(EMASS), F(c.E)
+            cos2 = te * (E + M + me) ** 2 / ((te + 2 * me) * E * (E + 2 * M))
+            tmax = (c.E if c.variant == 1 else c.E / 2) if m == "mb" else mu_tmax(c.E)
+            if abs(float(1 - cos2)) <= 1e-13 and (extreme or c.cut >= tmax * (1 - 1e-8)):
                 return "ioni-final-state-costheta-exceeds-1-by-rounding-nan-direction"
     except (ZeroDivisionError, IndexError):
         pass
@@ -587,7 +595,10 @@ def oracle(c, a):
     inc = INC_PID[m](c)
     vals = [a["dep"]] + ([a["E"]] + a["dir"] if act == 0 else []) + [x for s in a["secs"] for x in [s[1]] + s[2]]
     if not all(math.isfinite(x) for x in vals):
-        return bad + [("non-finite value in the final state (NaN direction)", nan_signature(c, a))]
+        sig = nan_signature(c, a)
+        if sig is None and c.dir[0] == 0 and c.dir[1] == 0 and abs(c.dir[2]) < 1:
+            sig = "rotate-nan-for-z-aligned-rot-with-rounded-unit-norm"
+        return bad + [("non-finite value in the final state (NaN direction)", sig)]
     # energy balance
     e_in = c.E + (2 * EMASS if (act == 1 and inc == 1) else 0.0)
     e_out = a["dep"] + (a["E"] if act == 0 else 0.0)
@@ -656,7 +667,7 @@ def compare_all(ctx, exe, cases, impl, model):
         ctx.sample({"case": c.replay(8), "impl": a, "model": b})
         # property oracle on the implementation
         for what, sig in oracle(c, a):
-            key = (c.model, what.split(":")[0], sig)
+            key = (c.model, re.sub(r"[-+]?[0-9][-+0-9.e]*", "#", what.split(":")[0])[:48], sig)
             nviol[key] = nviol.get(key, 0) + 1
             if nviol[key] <= 2:
                 ctx.violation("property", "%s: %s" % (c.model, what),
@@ -707,6 +718,14 @@ def replay_witnesses(ctx, exe):
     rot = [0.0, -2000.0 / 1000001.0, 999999.0 / 1000001.0]
     rc, out = ctx.run_harness(exe, input="rotate 6 0 0 1 %s\n" % " ".join(float(x).hex() for x in rot))
     t = out.split()
+    rc2, out2 = ctx.run_harness(exe, input="rotate 6 0 0 1 0 0 %s\n" % (1 - EPS).hex())
+    t2 = out2.split()
+    if rc2 == 0 and t2 and t2[0] == "ok":
+        ctx.count("witness:rotate-z-aligned-replayed")
+        if any(x in ("nan", "-nan") for x in t2[1:4]):
+            ctx.violation("finding", "rotate(dir, rot=(0,0,1-2^-53)) is NaN: sin(theta) = 1.5e-8 > 0 but x = y = 0, "
+                          "so cosphi = 0/0", {"dir": [0, 0, 1], "rot": [0, 0, 1 - EPS], "impl_result": t2[1:4]},
+                          signature="rotate-nan-for-z-aligned-rot-with-rounded-unit-norm")
     if rc == 0 and t and t[0] == "ok":
         v = [float.fromhex(x) for x in t[1:4]]
         dotp = sum(x * y for x, y in zip(v, rot))
@@ -715,5 +734,5 @@ def replay_witnesses(ctx, exe):
             ctx.violation("finding", "rotate(dir=+z, rot) does not return rot when 0 < sin(theta_rot) < 0.005 and rot.y < 0: "
                           "the sign of rot.y is dropped (polar angle to rot not preserved)",
                           {"dir": [0, 0, 1], "rot": rot, "impl_result": v, "dot(result, rot)": dotp, "expected_dot": 1.0,
-                           "theorem": "C04_rotate_preserves_polar_small_branch_refuted"},
+                           "theorem": "C04_rotate_old_preserves_polar_small_branch_refuted"},
                           signature="rotate-small-sintheta-branch-drops-sign-of-y")
